@@ -634,6 +634,20 @@ class Ev:
             a, b = sorted([vkey(l), vkey(r)], key=repr)      # commutative: conditions are side-effect free
             return Sym(op.lower(), a, b)
         l, r = num(self.eval(e["l"], env, depth)), num(self.eval(e["r"], env, depth))
+        return self.bin_values(e, op, l, r, depth)
+
+    def bin_values(self, e, op, l, r, depth):
+        if isinstance(l, Alt) or isinstance(r, Alt):
+            # an operand that is a guarded alternative (`helper(..) / d` where the helper branches): the operation is applied per alternative
+            out = []
+            for gl, lv in (flat_alts(l) if isinstance(l, Alt) else [((), l)]):
+                for gr, rv in (flat_alts(r) if isinstance(r, Alt) else [((), r)]):
+                    gs = tuple(gl) + tuple(gr)
+                    if isinstance(lv, EarlyRet) or isinstance(rv, EarlyRet):
+                        out.append((gs[0] if len(gs) == 1 else ("all", gs), lv if isinstance(lv, EarlyRet) else rv))
+                        continue
+                    out.append((gs[0] if len(gs) == 1 else ("all", gs), self.bin_values(e, op, num(lv), num(rv), depth)))
+            return Alt(out)
         if isinstance(l, Rec) or isinstance(r, Rec):
             if op in ("Add", "Sub", "Mul", "Div", "Rem"):
                 return self.overloaded(e, [l, r], depth)
@@ -840,7 +854,20 @@ class Ev:
                     try:
                         if kind == "stmt" and s_["k"] == "let":
                             if "init" in s_:
-                                self.bind(s_["pat"], self.collapse(self.eval(s_["init"], en, depth)), en)
+                                v_ = self.collapse(self.eval(s_["init"], en, depth))
+                                if isinstance(v_, Alt) and not self.loops:
+                                    # `let x = if c {a} else {b};` inside an executed block: one path per alternative
+                                    for gs_, x_ in flat_alts(v_):
+                                        if isinstance(x_, EarlyRet):
+                                            ret_ = Return(x_.value)
+                                            ret_.env = en
+                                            nxt.append((g + tuple(gs_), ret_))
+                                            continue
+                                        en2 = fork_env(en)
+                                        self.bind(s_["pat"], x_, en2)
+                                        nxt.append((g + tuple(gs_), en2))
+                                    continue
+                                self.bind(s_["pat"], v_, en)
                             nxt.append((g, en))
                         elif kind == "stmt" and s_["k"] == "item":
                             nxt.append((g, en))
@@ -917,15 +944,16 @@ class Ev:
                     except Unsupported:
                         pass
                 g = arm_guard(a["pat"], scrut)
-                if len(x["arms"]) == 2 and a is x["arms"][1] and catch_all(a) and r is None:
-                    g = neg_guard(arm_guard(x["arms"][0]["pat"], scrut))
-                self.path.append(g)
+                gt = (g,)
+                if len(x["arms"]) >= 2 and a is x["arms"][-1] and catch_all(a) and r is None:
+                    gt = tuple(neg_guard(arm_guard(b["pat"], scrut)) for b in x["arms"][:-1])
+                self.path.extend(gt)
                 try:
-                    out += [((g,) + g2, e2) for g2, e2 in self.fork_exec(a["body"], env2, depth)]
+                    out += [(gt + g2, e2) for g2, e2 in self.fork_exec(a["body"], env2, depth)]
                 except Return as ret:
-                    out.append(((g,), ret))
+                    out.append((gt, ret))
                 finally:
-                    self.path.pop()
+                    del self.path[len(self.path) - len(gt):]
                 if r is True:
                     break
             return out
@@ -1103,7 +1131,9 @@ class Ev:
             return
         if k == "ret":
             raise Return(self.eval(x["e"], env, depth) if "e" in x else Sym("unit"))
-        self.eval(x, env, depth)
+        v = self.eval(x, env, depth)
+        if isinstance(v, Sym) and v.tag[:1] == ("diverges",) and not self.loops and not self.guards:
+            raise Return(v)          # `if c { panic!(..) }` as a statement: the path ends here (outside loops, where execution is per path)
 
     def index_write(self, lhs, val, env, depth, x):
         base = strip_refs(lhs["e"])
@@ -1160,6 +1190,13 @@ class Ev:
 
     def arith(self, op, l, r, e, depth):
         op = op.replace("Assign", "")
+        if isinstance(l, Alt) or isinstance(r, Alt):
+            out = []
+            for gl, lv in (flat_alts(l) if isinstance(l, Alt) else [((), l)]):
+                for gr, rv in (flat_alts(r) if isinstance(r, Alt) else [((), r)]):
+                    gs = tuple(gl) + tuple(gr)
+                    out.append((gs[0] if len(gs) == 1 else ("all", gs), self.arith(op, num(lv), num(rv), e, depth)))
+            return Alt(out)
         if isinstance(l, Rec) or isinstance(r, Rec):
             return self.overloaded(e, [l, r], depth)
         if not (isinstance(l, Poly) and isinstance(r, Poly)):
@@ -1284,22 +1321,27 @@ class Ev:
             if r is None or (r is True and "guard" in a):
                 break
         alts = []
+        arm_guards = []
         for n_, a in enumerate(e["arms"]):
             env2 = dict(env)
             g = arm_guard(a["pat"], scrut)
-            if n_ == 1 and len(e["arms"]) == 2 and catch_all(a):
-                g = neg_guard(alts[0][0])
+            if n_ == len(e["arms"]) - 1 and n_ >= 1 and catch_all(a):
+                # the trailing catch-all arm is "none of the arms above": the same literals an if / else-if chain leaves on its last branch
+                prev = [neg_guard(alts_g) for alts_g in arm_guards]
+                g = prev[0] if len(prev) == 1 else ("all", tuple(prev))
+            arm_guards.append(g)
             try:
                 self.bind_pat_loose(a["pat"], scrut, env2)
             except Unsupported:
                 pass
-            self.path.append(g)
+            gl = list(g[1]) if isinstance(g, tuple) and len(g) == 2 and g[0] == "all" else [g]
+            self.path.extend(gl)
             try:
                 alts.append((g, self.eval(a["body"], env2, depth)))
             except Return as ret:
                 alts.append((g, EarlyRet(ret.value)))       # `None => return Err(..)`: only this arm leaves the function
             finally:
-                self.path.pop()
+                del self.path[len(self.path) - len(gl):]
         if alts and all(isinstance(x, EarlyRet) for _, x in alts):
             raise Return(Alt([(g, x.value) for g, x in alts]))
         return Alt(alts)
